@@ -144,8 +144,7 @@ impl Relation for ZkirRelation {
     }
 
     fn read_relation<R: io::Read>(reader: &mut R) -> io::Result<Self> {
-        let program = bincode::decode_from_std_read(reader, bincode::config::standard())
-            .map(|(program, _bytes_read): (Program, usize)| program)
+        let program: Program = bincode::decode_from_std_read(reader, bincode::config::standard())
             .map_err(io::Error::other)?;
 
         Self::from_instructions(&program.instructions)
